@@ -42,8 +42,11 @@ def builder_part(ctx, r, thorough):
     from harness.impl_builder import BuilderImpl
     cases, outs, flags = [], [], []
     ex = list(G.gen_exhaustive())
+    co = list(G.gen_coalesce())
     if not thorough:
         ex = ex[::2]
+        co = co[::3]
+    ex += co
     for c in ex:
         conc, out = G.resolve(c, BuilderImpl)
         cases.append(conc); outs.append(out); flags.append(True)
@@ -76,13 +79,13 @@ def connection_part(ctx, thorough):
     from harness.impl_amp import AmpObserver, compare
     n_seeds = 80 if thorough else 16
     stats = {"builders": 0, "builder_lines": 0, "budget_checked": 0, "amp_lines": 0, "amp_sends": 0, "amp_validate": 0,
-             "amp_promote": 0, "amp_new_address": 0, "ping_with_full_window": 0}
+             "amp_promote": 0, "amp_new_address": 0, "ping_with_full_window": 0, "path_response_from_other_address": 0}
     orc_n = {}
     runs = []
     for seed in range(n_seeds):
         for mode in ("handshake", "zero_rtt", "migration"):
             runs.append(("scenario", f"{rng.seed()}/{seed}/{mode}", mode))
-        for kind in ("client_0rtt_pto", "server_silent_client", "server_close", "ping_full_window"):
+        for kind in ("client_0rtt_pto", "server_silent_client", "server_close", "ping_full_window", "three_addresses"):
             runs.append(("directed", f"{rng.seed()}/{seed}", kind))
     for how, seed, mode in runs:
         tap = BuilderTap()
@@ -130,6 +133,7 @@ def connection_part(ctx, thorough):
             stats["amp_lines"] += len(o.lines)
             stats["amp_sends"] += o.sends
             stats["ping_with_full_window"] += o.limited_ping_calls
+            stats["path_response_from_other_address"] += o.cross_address_responses
             stats["amp_validate"] += sum(l.startswith("amp.validate") for l in o.lines)
             stats["amp_promote"] += sum(l.startswith("amp.promote") for l in o.lines)
             stats["amp_new_address"] += sum(l.startswith("amp.rxnew") for l in o.lines)
@@ -170,11 +174,14 @@ def main(tier):
     connection_part(ctx, thorough)
     ctx.cov["rule"] = (
         "builder: grid of (max_flight_bytes, max_total_bytes) around 0 / header / 128-byte rule / 1200 / 2400 x 10 scripts x "
-        "client|server, then random call sequences with budgets, CID/token lengths and max_datagram_size varied (70% sized "
+        "client|server; a padding-requiring Initial with Handshake / 0-RTT / 1-RTT packets coalesced behind it x budgets "
+        "1199..max_datagram_size+1 (flight < buffer, total < buffer, both) x max_datagram_size 1200/1280/1350/1500; then random call sequences with budgets, CID/token lengths and max_datagram_size varied (70% sized "
         "like connection.py, 30% arbitrary: correspondence only). connection: handshake / 0-RTT / migration schedules under "
         "loss, duplication, reordering, junk datagrams from three addresses, client rebinding, random close(), three "
         "max_datagram_size pairs; directed: silent peer + odd-sized junk + PTO, 0-RTT with a full window, application close "
-        "with the budget used up, application PINGs with the window full of stream data; spoofed-source Initials (valid "
+        "with the budget used up, three client addresses (migration to B, the server challenges B, the PATH_RESPONSE and later "
+        "packets arrive from a never-challenged C or a spoofed source; validation ops are derived from the wire: a Handshake "
+        "packet from the address, or a PATH_RESPONSE -> the path the challenge was SENT to), application PINGs with the window full of stream data; spoofed-source Initials (valid "
         "Initial keys, third address), send_ping() at random. Both endpoints' path ledgers and budgets are replayed on "
         "AQ.Model.Amplification after every receive_datagram / datagrams_to_send. Non-trivial = at least one datagram produced / an unvalidated send or a padded datagram."
     )
